@@ -74,6 +74,9 @@ def drive(lines, schedule, max_ticks, stop_rule=True, x=0):
                "req": [(r["kind"], r.get("name"), r["accepted"], r["error"]) for r in recs]}
         if "tick_exception" in ob:
             rec["exc"] = ob["tick_exception"]
+        # instances without a method line behind them (control commands of a user): the engine keeps them out of the run log
+        rec["no_line"] = sorted({st.instance_id for r in run.engine.tracking.runtimeinfo.records if r.node_class_name == "NullNode"
+                                 for st in r.states})
         nmarks = len(marks)
         trace.append(rec)
         if stop_rule:
@@ -152,6 +155,7 @@ def judge(lines, trace, on_stop, origin, fresh, kinds, x=0):
 
     phases = collections.defaultdict(list)
     names = {}
+    no_line = {i for rec in trace for i in rec.get("no_line", ())}
     for rec in trace:
         for (tk, name, phase, iid, it) in rec["cmd"]:
             phases[iid].append((tk, phase))
@@ -221,7 +225,9 @@ def judge(lines, trace, on_stop, origin, fresh, kinds, x=0):
                           f"{name} ({iid[-4:]}) of the ended run has events {late} after {kind} completed at tick {c}"))
         if final_rl is not None:
             items = [it for it in final_rl if it["id"] == iid]
-            if not items:
+            if not items and iid in no_line:
+                pass          # started by a user's control request: no method line, by design not an item of the run log
+            elif not items:
                 probs.append((f"C10:started-command-missing-in-final-runlog:{name}:{tag}",
                               f"{name} ({iid[-4:]}) started at tick {phases[iid][0][0]} but the run log at on_stop has no item for it: "
                               f"{[(i['name'], i['state']) for i in final_rl]}"))
@@ -298,7 +304,7 @@ def explore_program(item):
     in_method = method_kinds(lines)
 
     def one(sched, x=0):
-        kinds = [r[1] for _, r in sched] + in_method
+        kinds = [r[1] for _, r in sched if r[1] in ("Stop", "Restart")] + in_method
         origin = "+".join((["user"] if sched else []) + (["method"] if in_method else []))
         trace, on_stop = drive(lines, sched, T_REQ + 12 + AFTER, x=x)
         probs, info = judge(lines, trace, on_stop, origin, fresh, kinds, x)
@@ -341,6 +347,11 @@ def explore_program(item):
         for t in range(1, last + 1):
             for name in ("Stop", "Restart"):
                 one(((t, ("user", name)),))
+        if len(lines) <= 1:
+            # a UOD command started by the USER as a control command (no method line behind it) is running when Stop/Restart begins
+            for t in range(3, 8):
+                for name in ("Stop", "Restart"):
+                    one(((2, ("user", "Hang")), (t, ("user", name))))
     seen = set()
     uniq = []
     for sig, what, rep in out:
@@ -453,7 +464,7 @@ def replay(data):
     print("fresh run:", event_seq(fresh, 1, len(fresh)))
     in_method = method_kinds(lines)
     origin = "+".join((["user"] if sched else []) + (["method"] if in_method else []))
-    kinds = [r[1] for _, r in sched] + in_method
+    kinds = [r[1] for _, r in sched if r[1] in ("Stop", "Restart")] + in_method
     probs, _ = judge(lines, trace, on_stop, origin, fresh, kinds, x)
     seen, out = set(), []
     for sig, what in probs:
